@@ -277,11 +277,11 @@ func VxC14_SpecialValues() {
 //vx:mode FP
 //vx:solver cvc5
 //vx:timeout 60000
-//vx:bound NewLinearHist(2, 5, 3) and NewLinearHist(0, 4, 4) (delta exactly 1, and x-min exact next to every edge); x any float64 with |x| <= 1e15 (every edge neighbourhood, subnormals and zeros included)
-//vx:outside histograms whose delta, edges or x-min round - e.g. NewLinearHist(-4, 4, 4), where x = -1e-300 gives x+4 = 4 and is binned above the edge 0 (there a value within rounding distance of an edge may fall on either side); |x| > 1e15 and NaN: beyond 2^63 the float->int conversion in bin() is implementation-defined in Go (the engine models it as an arbitrary int64, so which overflow counter such a value reaches is not decided here; that exactly one counter moves is decided by VxC14_SpecialValues and VxC14_LinearConservation)
+//vx:bound NewLinearHist(2, 5, 3) and NewLinearHist(0, 4, 4) (delta exactly 1, and x-min exact next to every edge); x any float64 except NaN (every edge neighbourhood, subnormals, zeros, values beyond 2^63 and both infinities included)
+//vx:outside histograms whose delta, edges or x-min round - e.g. NewLinearHist(-4, 4, 4), where x = -1e-300 gives x+4 = 4 and is binned above the edge 0 (there a value within rounding distance of an edge may fall on either side); NaN (b is NaN and reaches Go's implementation-defined float->int conversion; that exactly one counter moves is decided by VxC14_SpecialValues)
 func VxC14_LinearExactEdges() {
 	x := vx.Float("x")
-	vx.Assume(x >= -1e15 && x <= 1e15)
+	vx.Assume(x == x)
 	var h *LinearHist
 	var lo, w float64
 	var nb int
